@@ -476,7 +476,7 @@ impl<'a> Tycker<'a> {
                 self.statics.abst_hints.get(abst).map(|hint| hint.span(self).to_ariadne_span())
             }
             | TyckError::Coverage(error) => {
-                self.statics_term_ariadne_span(error.computation().into())
+                self.statics_term_ariadne_span(error.term())
             }
             | _ => None,
         }
